@@ -57,14 +57,16 @@ def stage_mc_sweep(ctx):
     big = {2, 3} if quick else {2, 3, 4}
     runs += [('Sweep(EnergySize,all but single-site infinite)',
               dict(sweep_cfg(big, 0, inv=['EnergySize']), constraints=['NotSingleSiteInfinite'])),
-             ('Sweep(EnergySize,n=1,infinite)', sweep_cfg({2} if quick else {2, 3}, 0, ns=(1,), finites=(False,), inv=['EnergySize']))]
+             ('Sweep(EnergySize,n=1,infinite)', sweep_cfg({2} if quick else {2, 3}, 0, ns=(1,), finites=(False,), inv=['EnergySize'])),
+             # a unit cell of a single site: LP[i_R] and LP[i_L] are the same slot -- the protocol deletes the only part
+             ('Sweep(L=1,n=1,infinite)', sweep_cfg({1}, 0, ns=(1,), finites=(False,), inv=['NoCrash', 'AgeRule']))]
     for name, cfg in runs:
         res, _, d = tlc.mc('Sweep', cfg, workers=WORKERS, timeout=3000)
         shutil.rmtree(d, ignore_errors=True)
         ctx.add_mc(name, res)
         for inv in res.violated:
             ctx.violation(dict(kind='mc', spec='Sweep', invariant=inv, engine_n=sorted(cfg['constants']['Ns']),
-                               finite=sorted(cfg['constants']['Finites'])),
+                               finite=sorted(cfg['constants']['Finites']), unit_cell_1=(sorted(cfg['constants']['Ls']) == [1])),
                           dict(run=name, trace=tlaval.to_jsonable(res.error_trace[-12:])))
         missing = [a for a, (d_, t) in res.coverage.items() if t == 0 and not (a == 'DoExtGet' and cfg['constants']['MaxExt'] == 0)]
         if missing and not res.violated:
@@ -299,6 +301,20 @@ def stage_trace(ctx):
                 ev = [e for e in rec.events if e['tid'] == rec.ntraces][:14]
                 ctx.sample(dict(spec='TraceSweep', run=rc['key'], first_events=[
                     {k: v for k, v in e.items() if k not in ('lp', 'rp')} for e in ev]))
+        # the single-site engine on a unit cell of one site (refuted by model checking, confirmed here on the real engine)
+        rc = dict(n=1, bc='infinite', mix='none', combine=bool(ctx.seed % 2), L=1, model='tfi', chi=8, sweeps=2, check=1, ext=0.0,
+                  start_env=1, seed=5, rep=0, key='1-infinite-L1')
+        tid_before = rec.ntraces
+        E, eng, exc = run_engine_traced(rec, rc)
+        nrun += 1
+        for tid in range(tid_before + 1, rec.ntraces + 1):
+            runs_by_tid[tid] = rc
+            (aborted if exc is not None else set()).add(tid)
+        if exc is not None:
+            ctx.violation(dict(kind='exception', stage='trace', exc=type(exc).__name__, engine='SingleSite', bc='infinite',
+                               mix='none', combine=rc['combine'], model='tfi', unit_cell_1=True), dict(run=rc, message=str(exc)[:300]))
+            if rec.cur is not None:
+                rec.cur.closed = rec.cur.ended = True
         # TDVP engines share Sweep / the environment; their histories are validated at the environment level
         tdvp_tids = set()
         rng = random.Random(3000 + ctx.seed)
@@ -597,7 +613,12 @@ def solvable_case(ctx, inst, ecfg, s0, origin):
         ctx.case(key + ('P4',), action='Solvable.P4')
         if not ((mixer_at_end or float(np.real(E)) >= E0 - tol) and EH >= E0 - tol):
             fail('P4-below-ground-state', expectation=EH)
-    # P5 exact ground state reached
+    # P6 number of sweeps: the run stops once more than max_sweeps sweeps were done (checked every N_sweeps_check = 1)
+    ctx.case(key + ('P6',), action='Solvable.P6')
+    if not eng.sweeps <= opts['max_sweeps'] + 1:
+        fail('P6-too-many-sweeps', max_sweeps=opts['max_sweeps'])
+    # P5 exact ground state reached (claimed by the property for the two-site engine; evaluated for the single-site
+    # engine with a mixer as well)
     v0 = dict(zip(inst['basis'], inst['v'])).get(s0, 0)
     if (mix != 'none' and chimode in ('full', 'list') and diag != 'ED_all' and inst['conn'] and length == 'conv'
             and (v0 != 0 or diag == 'ED_block')):
@@ -744,6 +765,7 @@ def stage_solvable(ctx):
             pool = [x for pair in zip(tw_, re_) for x in pair] + tw_[len(re_):] + re_[len(tw_):]
         chosen += pool[:cnt]
     nrun = nok = 0
+    hc_dm_done = False
     for j, inst in enumerate(chosen):
         cfgs = list(ENGINE_MATRIX)
         rng.shuffle(cfgs)
@@ -756,6 +778,9 @@ def stage_solvable(ctx):
                   and c[6] == 'conv' and not c[5]]
         extra = [rng.choice(edpath)] if inst['twk'] != 0 else cfgs[:1]
         cfgs = [rng.choice(p5), rng.choice(short), rng.choice(shifted)] + extra + [c for c in cfgs[1:n_cfg - 3]]
+        if inst['fam'] == 'ferro' and not hc_dm_done and inst['conn']:
+            hc_dm_done = True
+            cfgs.append((1, 'dm', 'default', False, 'full', True, 'conv', None))
         for ecfg in cfgs:
             for s0 in product_states(inst, rng, 1 if quick else 2):
                 nrun += 1
